@@ -36,7 +36,8 @@ class C14(BaseCheck):
   REQUIRED_ANCHORS = ANCHORS
   REQUIRED_CLASSES = ('outcome:value', 'outcome:declared-exc', 'outcome:declared-exc-not-first', 'outcome:app-exc', 'outcome:void',
                       'iface:hello', 'iface:verif', 'iface:ext', 'chunk:1cut', 'chunk:2cut', 'chunk:kcut',
-                      'text:nonascii', 'text:empty', 'concurrent', 'two-services', 'short-sends', 'alternating-outcomes')
+                      'text:nonascii', 'text:empty', 'concurrent', 'two-services', 'short-sends', 'alternating-outcomes',
+                      'text:over-a-mebibyte')
   ASSUMPTIONS = ('interfaces: the repository\'s hello.Hello plus a hand-written module in the shape the '
                  'Thrift compiler emits (py:dynamic); no Thrift compiler is available offline',)
   QUICK_CASES = 480
@@ -57,6 +58,8 @@ class C14(BaseCheck):
     from vlib.gen.verifsvc import ttypes
     k = rng.choice(['hi', 'echo', 'echo', 'add', 'swap', 'flag', 'ping', 'fail', 'vfail', 'vfail-ok',
                     'blob', 'names', 'extra', 'appexc', 'fail-other', 'fail-third', 'vfail-other'])
+    if rng.random() < 0.04:
+      k = 'huge'
     if k == 'hi':
       s = gen_text(rng)
       return 'hello', 'hi', (s,), {}, ('value', 'hi:' + s)
@@ -64,6 +67,13 @@ class C14(BaseCheck):
     if k == 'extra':
       s = gen_text(rng)
       return 'ext', 'extra', (s,), {}, ('value', 'extra:' + s)
+    if k == 'huge':
+      # values of more than a mebibyte of UTF-8: as a plain string, in a declared exception
+      unit = rng.choice(['x', 'é', '日'])
+      s = 'h' + unit * (((1 << 20) + rng.randint(1, 70000)) // len(unit.encode('utf-8')) + 1)
+      if rng.random() < 0.3:
+        return iface, 'fail', (s,), {}, ('declared', s, len(s))
+      return iface, 'echo', (s,), {}, ('value', 'echo:' + s)
     if k == 'echo':
       s = gen_text(rng)
       if s.startswith('APPEXC:'):
@@ -130,6 +140,8 @@ class C14(BaseCheck):
       if isinstance(a, str):
         if a == '':
           classes.add('text:empty')
+        if len(a) > 300000:
+          classes.add('text:over-a-mebibyte')
         if any(ord(c) > 127 for c in a):
           classes.add('text:nonascii')
     self.net.reset()
